@@ -103,7 +103,7 @@ def _range_expr(args, rev):
 def family_range(tier):
     quick = tier == 'quick'
     b = Builder()
-    types = ['obj', 'int', 'uint', 'ssize_t', 'char'] if quick else list(TYPES)
+    types = ['obj', 'int', 'uint', 'char'] if quick else list(TYPES)
     for tname in types:
         ann, vals, lo, hi = TYPES[tname]
         decl = '    n: cython.int\n    out: list = []\n' + (('    i: %s\n' % ann) if ann else '')
@@ -113,7 +113,7 @@ def family_range(tier):
             rv = 'rev' if rev else 'fwd'
             # ---- all literal: one function per step holding the loops for every (start, stop)
             for step in steps + [None, 'one']:
-                if quick and (tname in ('ssize_t', 'char') or (rev and step in (3, -3, 10))):
+                if quick and (tname == 'char' or (rev and step in (3, -3, 10))):
                     continue           # quick: literal shapes for untyped/int/unsigned targets only
                 body = decl
                 for a, c in itertools.product(vals, vals):
@@ -555,7 +555,7 @@ def run(ctx):
     lit.sets = ra.sets
     lit.parts = [p for p in ra.parts if '/lit/' in p.funcs[0].tag and p.funcs[0].tag.startswith('range-bound')]
     ra.parts = [p for p in ra.parts if p not in lit.parts]
-    mods = make_mods(ra, 'c14r', 25) + make_mods(lit, 'c14l', 2) + make_mods(bo, 'c14b', 60)
+    mods = make_mods(ra, 'c14r', 25) + make_mods(lit, 'c14l', 12) + make_mods(bo, 'c14b', 60)
     ra.parts = ra.parts + lit.parts
     if not flt or flt in 'carray':
         mods.append(carray_mod())
